@@ -229,6 +229,10 @@ def build(cfg):
                 continue
             b.codes.append(OK)
             b.kids.append((r[0], r[1], saw, child, port, mmap))
+            if len(b.kids) % 2 == 1:
+                # looking at a half-built decoder (listing its windows, as a log message or an early elaboration
+                # would) must not change what it becomes
+                list(dec.bus.memory_map.windows()); list(dec.bus.memory_map.window_patterns())
         return b
     return mk(cfg["root"])
 
@@ -274,22 +278,25 @@ def run_impl(case):
     codes, leaves, cnt = [], [], [0]
 
     def walk(b):
-        """Follows dec.bus.memory_map.windows() (ascending addresses) - the implementation's own view."""
+        """Follows the ranges the accepted add() calls returned, in ascending address order; the decoder's
+        memory_map.windows() must list exactly these (checked below)."""
         m.submodules[f"d{cnt[0]}"] = b.dec
         cnt[0] += 1
         codes.append(list(b.codes))
         meta = []
-        for (wmap, _name, (start, stop, _ratio)) in b.dec.bus.memory_map.windows():
-            kid = [k for k in b.kids if k[5] is wmap]
-            assert len(kid) == 1, "a window of the real map is not one of the accepted add() calls"
-            (_s, _e, saw, child, port, _m) = kid[0]
+        listed = [(id(wmap), start, stop) for (wmap, _name, (start, stop, _ratio)) in b.dec.bus.memory_map.windows()]
+        for (start, stop, saw, child, port, wmap) in sorted(b.kids, key=lambda k: k[0]):
+            if (id(wmap), start, stop) not in listed:
+                lost.append([start, stop])
             if isinstance(child, Built):
                 meta.append([start, stop, port.addr_width, walk(child)])
             else:
                 meta.append([start, stop, port.addr_width, [0, len(leaves), child["uid"]]])
                 leaves.append((port, child["uid"]))
         return [1, meta]
+    lost = []
     meta = walk(root)
+    meta.append(lost)
     bus = root.dec.bus
     # interfaces whose add() was refused are not part of the decoder: they keep talking (non-zero r_data every
     # cycle) and must have no influence on it
@@ -364,6 +371,9 @@ def oracle(case, obs):
         return []
     uids = leaf_list(meta, [])
     out = []
+    for (s_, e_) in (meta[2] if len(meta) > 2 else []):
+        out.append(("C06", "windows", f"the subordinate that add() placed at [{s_:#x}, {e_:#x}) is missing from its decoder's "
+                                      f"memory_map.windows(): the decoder cannot select it"))
     for t, ((a, r, w, d, rds), (ports, rdata)) in enumerate(zip(case["stim"], rows)):
         hit = addressed(meta, a)
         for k, (pa, pr, pw, pd) in enumerate(ports):
